@@ -79,7 +79,7 @@ def random_cut_case(rng, max_heavy, kinds=('$', '><'), max_parts=6, mol_kw=None,
             # condensed aromatic systems (naphthalene ... tetracene skeletons), often cut through their rings
             kw = dict(p_ring=0.3, p_arom=0.95, p_fused=0.85)
             max_heavy = max(max_heavy, 14)
-        elif mode == 'het5_lower' or rng.random() < 0.3:
+        elif mode in ('het5_lower', 'het5_lower_kept') or rng.random() < 0.3:
             # five-membered heteroaromatic skeletons in Kekule form; those with a free N-H also in lower-case spelling,
             # often cut through the ring
             kw = dict(p_ring=0.3, p_arom=0.3, p_het5=0.8, p_lower5=(0.6 if mode is None else 1.0) if allow_lower5 else 0.0)
@@ -89,7 +89,7 @@ def random_cut_case(rng, max_heavy, kinds=('$', '><'), max_parts=6, mol_kw=None,
             if len(g) >= 5 and g.number_of_edges() >= len(g):
                 break
         nparts = rng.randint(2, min(len(g), 4))
-        keep = rng.random() < 0.7
+        keep = rng.random() < 0.7 or mode == 'het5_lower_kept'      # (kept: no cut runs through a ring)
         if not keep and rng.random() < 0.5:
             nparts = rng.randint(4, min(len(g), 9))      # ring systems spread over many fragments: base graphs with several cycles
         if render_opts is None:
@@ -103,7 +103,7 @@ def random_cut_case(rng, max_heavy, kinds=('$', '><'), max_parts=6, mol_kw=None,
         cap = max_parts if rng.random() < 0.85 else max(max_parts, 14)
         nparts = rng.randint(1, min(len(g), cap))
     part = M.partition(rng, g, k=nparts, keep_rings=keep)
-    if ringy and len(g) <= 10 and g.number_of_edges() >= len(g) + 1 and rng.random() < 0.4:
+    if ringy and mode != 'het5_lower_kept' and len(g) <= 10 and g.number_of_edges() >= len(g) + 1 and rng.random() < 0.4:
         # every atom a fragment of its own: the base graph is the (poly)cyclic molecule graph itself,
         # so its spelling has nodes that close several rings at once
         part = {n: i for i, n in enumerate(g.nodes)}
@@ -959,6 +959,7 @@ def execute(case):
 
 def _execute(case):
     from cgsmiles import MoleculeResolver
+    from .. import contracts
     kind = case['kind']
     try:
         if kind == 'ambig':
@@ -969,7 +970,19 @@ def _execute(case):
             r = make_resolver(case, on_dicts=_given_templates, last_all_atom=False)
         else:
             r = make_resolver(case, on_dicts=_given_templates, **case.get('kw', {}))
-        steps = list(r.resolve_iter())
+        steps, at_yield = [], []
+        for cg_, aa_ in r.resolve_iter():
+            # what the iterator hands out, looked at WHEN it hands it out (a caller loops over the levels as they come)
+            at_yield.append(({n: d.get('fragname') for n, d in aa_.nodes(data=True)}, aa_.number_of_edges(), {n: d.get('fragname') for n, d in cg_.nodes(data=True)}))
+            steps.append((cg_, aa_))
+        calls = [c for c in contracts.CALL_LOG if c['resolver'] == id(r)]
+        if len(calls) == len(at_yield):
+            for lvl_, (c_, y_) in enumerate(zip(calls, at_yield)):
+                if (c_['fragnames'], c_['edges'], c_['coarse_names']) != y_:
+                    bad_ = next((n for n in y_[0] if c_['fragnames'].get(n) != y_[0][n]), None)
+                    contracts.rec('C02', 'c02.step_changed_before_it_was_handed_out', f"level {lvl_} of {len(at_yield)}: resolve_iter() hands out a pair that differs from what the resolve() call for that "
+                                  f"level returned (e.g. fine node {bad_}: fragment name {c_['fragnames'].get(bad_)!r} when resolved, {y_[0].get(bad_)!r} when handed out)")
+                    break
         if kind == 'multilevel':
             # the one-call driver on a fresh resolver: the pair it hands back is judged by the resolve_all contract
             MoleculeResolver.from_string(case['multi_string'], last_all_atom=not case.get('coarse_last', False)).resolve_all()
